@@ -357,24 +357,43 @@ def run_convert(ck, hb, bdir, rng, n, stats):
     if tool is None:
         ck.notes.append("om_matrix_convert not found in the scratch build"); return 0
     jobs = []
-    def sniffed_as_text(o, f1):
-        """auto-detection (the tool gives no input format) offers a binary file to the text reader first when its
-        first bytes look like a number: first dimension byte in '+-.0-9'"""
-        return f1 == 0 and (obj_dims(o)[0] & 0xff) in (43, 45, 46) + tuple(range(48, 58))
     t = 0
-    while len(jobs) < n:
+    w = lex.d2w
+    # the shape grid: every kind x input format x output format, incl. 1xn, nx1, 1x1 and zero dimensions
+    def vals(k): return [w(float(i + 1) + 0.25) for i in range(k)]
+    grid = [[0, n] + vals(n) for n in (0, 1, 2, 3)]
+    grid += [[1, a, b] + vals(a * b) for (a, b) in ((1, 1), (1, 3), (3, 1), (2, 2), (2, 3), (0, 2), (2, 0))]
+    grid += [[2, n] + vals(n * (n + 1) // 2) for n in (0, 1, 2, 3)]
+    grid += [[3, 2, 3, 0], [3, 2, 3, 1, 0, 1, w(1.5)], [3, 2, 3, 3, 0, 0, w(1.0), 0, 2, w(2.0), 1, 1, w(3.0)], [3, 1, 3, 2, 0, 0, w(1.0), 0, 2, w(2.0)], [3, 3, 1, 1, 2, 0, w(4.0)], [3, 1, 1, 1, 0, 0, w(5.0)]]
+    for o in grid:
+        for f1 in (0, 1, 3):
+            for f2 in (0, 1, 3):
+                jobs.append((o, f1, f2, t)); t += 1
+    while len(jobs) < len(grid) * 9 + n:
         kind = rng.randint(0, 3)
         f1 = rng.choice([0, 0, 1, 3]); f2 = rng.choice([0, 1, 3])
         o = gen_obj(rng, kind, nonfinite=False, big=False)
         jobs.append((o, f1, f2, t)); t += 1
-    # fixed witnesses: a binary file whose first byte is a digit is offered to the text reader by auto-detection
-    w = lex.d2w
+    # former witnesses of the auto-detection finding (repaired): plain cases now
     jobs.append(([0, 48] + [w(float(k)) for k in range(48)], 0, 0, t)); t += 1
     jobs.append(([1, 49, 2] + [w(0.0)] * 98, 0, 1, t)); t += 1
-    jobs.append(([1, 0, 3], 0, 0, t)); t += 1
-    jobs.append(([1, 3, 0], 3, 0, t)); t += 1
     sl = ["c07 6 %d %s %d" % (f1, " ".join(map(str, o)), 1000 + t) for (o, f1, f2, t) in jobs]
     rc, io, err = core.run_harness(hb, sl, ck.workdir, tag="cv1")
+    # maths::info of every file just written: kind and dimensions of the object that was saved
+    il = ["c07 15 %d %d" % (f1, 1000 + t) for (o, f1, f2, t) in jobs]
+    rc, ioi, err = core.run_harness(hb, il, ck.workdir, tag="cvi")
+    ST = {0: 0, 1: 0, 2: 1, 3: 4}       # LinOp::StorageType of Vec, Full, Sym, Sparse
+    for (o, f1, f2, t), l0, li, line in zip(jobs, io, ioi, sl):
+        if ints(l0)[0] != 0: continue
+        amb = bin_ambiguous(o) if f1 == 0 else txt_ambiguous(o) if f1 == 1 else False
+        if amb or (f1 == 1 and o[0] == 1 and o[1] == 1 and False): continue
+        got = ints(li)
+        d = obj_dims(o)
+        exp = [0, ST[o[0]], 1 if o[0] == 0 else 2, d[0], 1 if o[0] == 0 else (d[0] if o[0] == 2 else d[1])]
+        stats["dist"]["info/%s" % FN[f1]] = stats["dist"].get("info/%s" % FN[f1], 0) + 1
+        if got != exp:
+            ck.violation("info differs: %s %s" % (FN[f1], describe(o)), "PROPERTY: maths::info of the %s file of %s says %s (status, storage, dimension, nlin, ncol), expected %s" % (FN[f1], describe(o), got, exp),
+                         dict(kind="convert", cases=[line, "c07 15 %d %d" % (f1, 1000 + t)], fmt_in=FN[f1], fmt_out=FN[f1]))
     ran = []
     env = dict(os.environ); env["OMP_NUM_THREADS"] = "1"
     libs = ombuild.find_libs(bdir); env["LD_LIBRARY_PATH"] = ":".join(sorted({os.path.dirname(p) for p in libs.values()})) + ":" + env.get("LD_LIBRARY_PATH", "")
